@@ -40,6 +40,7 @@ Init ==
     /\ credit = pre /\ ident = Zero /\ pktMax = PktMaxC
     /\ ev = [act |-> "reset", by |-> "env", ok |-> TRUE]
     /\ sched = <<>>
+    /\ \A i \in 1..20 : TLCSet(100 + i, 0)
     /\ cfgv = [channels |-> SetToSeq(Chan), defaultGas |-> IF c0.legacy /\ ~c0.v2 THEN 100 ELSE c0.defaultGas,
                allow |-> IF c0.legacy /\ ~c0.v2 THEN <<[gas |-> -1]>> ELSE IF c0.listed THEN <<[gas |-> c0.gas]>> ELSE <<>>,
                legacy |-> IF c0.legacy THEN (IF c0.v2 THEN "v2" ELSE "v1") ELSE "none", scale |-> 0,
@@ -181,7 +182,19 @@ FormsQ == {"ok", "otherchan"}
 
 EmitSchedule ==
   (GenMode /\ GenFail /\ Len(sched) = GenDepth) => PrintT(<<"SCHED", ToJson([cfg |-> cfgv, steps |-> sched])>>)
+\* corner states whose BFS path is always emitted (once per worker), whatever the sampling rate
+Goals == <<
+  \E c \in Chan, d \in Denom : chan[c][d].sent > 0 /\ chan[c][d].out = 0,       \* everything sent came back or failed
+  \E c \in Chan : credit[c]["tok"] > chan[c]["tok"].out,                          \* a refund failed: books reduced, money kept
+  allow.listed /\ allow.gas = -1,                                                 \* token allowed without limit
+  admin = "gov2",                                                                 \* governance handed over
+  ~legacy /\ cfgv.legacy # "none" /\ \E i \in 1..Len(pkts) : pkts[i].done,        \* a pre-upgrade packet settled after migration
+  tokFails /\ \E i \in 1..Len(pkts) : ~pkts[i].done /\ pkts[i].denom = "tok",     \* token failing with a tok packet in flight
+  \E d \in Denom : held[d] > SumF(Chan, [c \in Chan |-> chan[c][d].out])          \* holdings above the books
+>>
+NewGoal == \E i \in 1..Len(Goals) : Goals[i] /\ TLCGet(100 + i) = 0 /\ TLCSet(100 + i, 1)
 EmitSampled ==
-  (GenMode /\ ~GenFail /\ Len(sched) > 0 /\ TLCGet("distinct") % SampleK = 0) =>
-     PrintT(<<"SCHED", ToJson([cfg |-> cfgv, steps |-> sched])>>)
+  (GenMode /\ ~GenFail /\ Len(sched) > 0) =>
+     (IF NewGoal \/ TLCGet("distinct") % SampleK = 0
+      THEN PrintT(<<"SCHED", ToJson([cfg |-> cfgv, steps |-> sched])>>) ELSE TRUE)
 =============================================================================
